@@ -42,7 +42,7 @@ Fixpoint reconstruct2 (m : Symbols.mgr) (banks : list Cursor.bank) (defs : list 
           let opos := match Cursor.bk_outp b with Some o => Some (o + pos)%N | None => None end in
           let st' :=
             match n with
-            | XLabel _ _ | XConst _ _ _ | XBank _ => st
+            | XLabel _ _ | XConst _ _ _ | XBank _ | XAssert _ => st
             | XInstr i _ =>
               match nth_error (s_instr st) i with
               | None => st
